@@ -1629,8 +1629,22 @@ class CodeGenerator(NodeVisitor):
         self.push_assign_tracking()
 
         # Like in visit_Assign, ``a.b`` is only valid for a Namespace object.
+        # The ref can be the target itself or an item of a tuple target.
+        nsrefs: t.Iterable[nodes.NSRef]
+
         if isinstance(node.target, nodes.NSRef):
-            ref = frame.symbols.ref(node.target.name)
+            nsrefs = [node.target]
+        else:
+            nsrefs = node.target.find_all(nodes.NSRef)
+
+        seen_refs: set[str] = set()
+
+        for nsref in nsrefs:
+            if nsref.name in seen_refs:
+                continue
+
+            seen_refs.add(nsref.name)
+            ref = frame.symbols.ref(nsref.name)
             self.writeline(f"if not isinstance({ref}, Namespace):")
             self.indent()
             self.writeline(
